@@ -313,7 +313,7 @@ Proof.
 Qed.
 
 Lemma fee_phase_failed e s s1 t res s2 :
-  d_fee_after_body c = false ->
+  d_fee_after_body (x_fees c) = false ->
   (forall a, rbal s1 a = bal s a) -> (forall a, rnonce s1 a = nonce s a) ->
   (is_ok res = false -> log s1 = []) ->
   fee_phase c e s1 t res = (s2, false) ->
@@ -359,7 +359,7 @@ Qed.
 
 (** what a FAILED transaction leaves behind (any program, any position, any state) *)
 Theorem failed_characterised e idx s t s' rc cnt :
-  d_fee_after_body c = false ->
+  d_fee_after_body (x_fees c) = false ->
   tx_invalid t = true \/ is_ibtp t = false \/ d_ibtp_no_revert c = false ->
   apply_tx c e idx s t = (s', rc, cnt) -> r_ok rc = false ->
   (forall a, bal s' a = spec_bal e s t a) /\
@@ -384,7 +384,7 @@ Proof.
 Qed.
 
 Theorem failed_frame_generic e idx s t s' rc cnt :
-  d_fee_after_body c = false ->
+  d_fee_after_body (x_fees c) = false ->
   tx_invalid t = true \/ is_ibtp t = false \/ d_ibtp_no_revert c = false ->
   d_raw_add c = false \/ tx_raws c s t = [] ->
   apply_tx c e idx s t = (s', rc, cnt) -> r_ok rc = false ->
@@ -400,14 +400,14 @@ Qed.
 (** a transaction rejected before execution (bad signature, unverified proof) never runs its
     body: FAILED, and only nonce and fee remain - whatever the other flags *)
 Theorem invalid_tx_frame e idx s t s' rc cnt :
-  d_fee_after_body c = false -> tx_invalid t = true ->
+  d_fee_after_body (x_fees c) = false -> tx_invalid t = true ->
   apply_tx c e idx s t = (s', rc, cnt) -> r_ok rc = false /\ frame_ok e s s' t.
 Proof.
   intros Hf Hinv Ha.
   assert (Hok : r_ok rc = false).
   { revert Ha. unfold apply_tx, tx_body. rewrite Hinv. unfold fee_phase.
     destruct (bal (touch (clear_frame s) (tx_from t)) (tx_from t) <? gas_of t * price e).
-    - destruct (negb (d_fee_after_body c) && _); intro H; inversion H; reflexivity.
+    - destruct (negb (d_fee_after_body (x_fees c)) && _); intro H; inversion H; reflexivity.
     - intro H; inversion H; reflexivity. }
   split; [exact Hok|].
   eapply failed_frame_generic; [exact Hf | left; exact Hinv | right; unfold tx_raws; rewrite Hinv; reflexivity | exact Ha | exact Hok].
@@ -465,7 +465,7 @@ Qed.
 (** the frame property at every position of a block: for the transaction at position
     [length p] of [p ++ t :: q] the theorem above applies to the state reached after [p] *)
 Theorem block_position_frame c e s pre p t :
-  d_stale_changer c = false -> d_fee_after_body c = false ->
+  d_stale_changer c = false -> d_fee_after_body (x_fees c) = false ->
   tx_invalid t = true \/ is_ibtp t = false \/ d_ibtp_no_revert c = false ->
   let '(si, _, _) := apply_txs c e 0%N (new_block s pre) p in
   let '(si', rc, _) := apply_tx c e (N.of_nat (length p)) si t in
@@ -491,17 +491,17 @@ Definition kB : key := (2001%N, 2%N).
 Definition mk_tx from n k := {| tx_from := from; tx_nonce := n; tx_kind := k; tx_invalid := false |}.
 
 Definition cfg_raw := {| d_raw_add := true; d_stub_promoted := false; d_ibtp_no_revert := false; d_failed_events := false;
-                        d_stale_changer := false; d_fee_after_body := false; x_fees := fcfg_fixed |}.
+                        d_stale_changer := false; x_fees := {| d_self_transfer := false; d_neg_amount := false; d_fee_after_body := false |} |}.
 Definition cfg_stub := {| d_raw_add := true; d_stub_promoted := true; d_ibtp_no_revert := false; d_failed_events := false;
-                         d_stale_changer := false; d_fee_after_body := false; x_fees := fcfg_fixed |}.
+                        d_stale_changer := false; x_fees := {| d_self_transfer := false; d_neg_amount := false; d_fee_after_body := false |} |}.
 Definition cfg_ibtp := {| d_raw_add := false; d_stub_promoted := false; d_ibtp_no_revert := true; d_failed_events := false;
-                         d_stale_changer := false; d_fee_after_body := false; x_fees := fcfg_fixed |}.
+                        d_stale_changer := false; x_fees := {| d_self_transfer := false; d_neg_amount := false; d_fee_after_body := false |} |}.
 Definition cfg_events := {| d_raw_add := false; d_stub_promoted := false; d_ibtp_no_revert := false; d_failed_events := true;
-                           d_stale_changer := false; d_fee_after_body := false; x_fees := fcfg_fixed |}.
+                        d_stale_changer := false; x_fees := {| d_self_transfer := false; d_neg_amount := false; d_fee_after_body := false |} |}.
 Definition cfg_stale := {| d_raw_add := false; d_stub_promoted := false; d_ibtp_no_revert := false; d_failed_events := false;
-                          d_stale_changer := true; d_fee_after_body := false; x_fees := fcfg_fixed |}.
+                        d_stale_changer := true; x_fees := {| d_self_transfer := false; d_neg_amount := false; d_fee_after_body := false |} |}.
 Definition cfg_fab := {| d_raw_add := false; d_stub_promoted := false; d_ibtp_no_revert := false; d_failed_events := false;
-                        d_stale_changer := false; d_fee_after_body := true; x_fees := fcfg_fixed |}.
+                        d_stale_changer := false; x_fees := {| d_self_transfer := false; d_neg_amount := false; d_fee_after_body := true |} |}.
 
 (** a non-journaled write followed by any failure (here: the fee) survives the revert *)
 Theorem raw_add_refuted :
